@@ -186,6 +186,29 @@ def expected_status(ops):
     return (0, 0)
 
 
+def strip_replies(cfg, segs, recs):
+    """remove the parsers' own replies (management results, UnknownType, CantMpxConn/UnknownRole rejections, EndRequest for
+    an abort during Params) from the decoded transport log: they are known byte for byte from the specification; what remains
+    is handler output + epilogues.  Returns None when replies and epilogues cannot be told apart."""
+    owed = []
+    for ge, gm, sb in segs:
+        rr, _ = parse_records(sb)
+        phase = ("idle",)
+        for r in rr:
+            rep, phase = replies_for([r], cfg[1] or 1, phase)
+            owed += [b for _, b in rep]
+        if any(r[0] == BEGIN and len(r[2]) == 8 and not 1 <= r[2][0] * 256 + r[2][1] <= 3 and r[1] in (1, 2, 3, 4, 77, 78, 79, 65535) for r in rr):
+            return None
+    rest, oi = [], 0
+    for r in recs:
+        enc = header(r[0], r[1], len(r[2]), r[3]) + r[2] + [0] * r[3]
+        if oi < len(owed) and enc == owed[oi]:
+            oi += 1
+        else:
+            rest.append(r)
+    return rest
+
+
 def oracle(line, impl_line):
     o = parse_out(impl_line)
     if o is None or o[0] == [888888]:
@@ -199,31 +222,9 @@ def oracle(line, impl_line):
     recs, tail = parse_records(wlog)
     if tail != "clean":
         return "transport log is not a sequence of complete records"
-    # remove the parsers' own replies (management results, UnknownType, CantMpxConn/UnknownRole rejections):
-    # they are known byte for byte from the specification; what remains is handler output + epilogues
-    owed = []
-    ids = set()
-    for ge, gm, sb in segs:
-        rr, _ = parse_records(sb)
-        phase = ("idle",)
-        for r in rr:
-            rep, phase = replies_for([r], cfg[1] or 1, phase)
-            owed += [b for _, b in rep]
-            if phase[0] == "params":
-                ids.add(phase[1])
-            if r[0] == BEGIN and r[1] in ids and phase[0] != "params":
-                pass
-        # a junk BeginRequest whose id equals a served id makes replies and epilogues indistinguishable
-        if any(r[0] == BEGIN and len(r[2]) == 8 and not 1 <= r[2][0] * 256 + r[2][1] <= 3 and r[1] in (1, 2, 77, 65535) for r in rr):
-            return None
-    rest, oi = [], 0
-    for r in recs:
-        enc = header(r[0], r[1], len(r[2]), r[3]) + r[2] + [0] * r[3]
-        if oi < len(owed) and enc == owed[oi]:
-            oi += 1
-        else:
-            rest.append(r)
-    recs = rest
+    recs = strip_replies(cfg, segs, recs)
+    if recs is None:
+        return None
     # expected requests, one per segment (C07's generator puts exactly one request per segment)
     pos = 0
     served = 0
